@@ -235,7 +235,214 @@ def relations(rng, tier, rpt):
         rep("coin constants differ after the end-to-end flows (a wrapper edited a shared configuration object)", "Cip1852 + CardanoShelley flows", str(diff[:4]), "unchanged")
     rpt.extra["impl_end_to_end_checks"] = n
     rpt.extra["per_key_parameter_checks"] = _per_key_params(rng, tier, rep, seed)
+    rpt.extra["option_isolation_checks"] = _option_isolation(rng, tier, rep, seed)
+    rpt.extra["concurrent_address_checks"] = _concurrent_addresses(rng, tier, rep, seed, seed32)
     return bad[:8]
+
+
+def _option_isolation(rng, tier, rep, seed):
+    """'the coin's constants equal the registry values' for every member, in every position of the option switches of the OTHER
+    configurations: an option belongs to the configuration object it was switched on. (1) each switch alone: with it on, every member whose
+    configuration is another object still shows its registry row (and the members of that object show the registry row of the variant);
+    (2) sequences of switches on several configurations (on A, on B, off A, …; at most one option per object at a time, which is what the
+    registry lists): after every step each member shows the row of its own object's current position. Constants are read through the
+    public accessors only (gen_coins.snapshot); a member that differs is also shown by the address of its default path."""
+    from gen.gen_coins import rows, snapshot
+    purpose = {"Bip44": 44, "Bip49": 49, "Bip84": 84, "Bip86": 86, "Cip1852": 1852}
+    skip = ("confId", "variant")
+    ref = {(r["family"], r["member"], r["variant"]): {k: v for k, v in r.items() if k not in skip} for r in rows()}
+    mem = [(fam, m.name, getter.GetConfig(m)) for fam, (cls, en, getter) in FAM.items() for m in en]
+    switches, seen = [], set()
+    for (fam, name, var) in ref:
+        if var:
+            conf = FAM[fam][2].GetConfig(FAM[fam][1][name])
+            if (id(conf), var) not in seen:
+                seen.add((id(conf), var))
+                switches.append((fam, name, var, conf))
+    with_switch = {id(c) for _, _, _, c in switches}
+    active = {}          # id(configuration object) -> (variant switched on, label)
+    done = [0]
+
+    def check(which, story):
+        for fam, name, conf in which:
+            want = ref.get((fam, name, active[id(conf)][0] if id(conf) in active else ""))
+            if want is None:
+                continue
+            done[0] += 1
+            try:
+                got = {k: v for k, v in snapshot(fam, name, "", conf, {}, purpose[fam]).items() if k not in skip}
+            except BaseException as ex:  # noqa  (the translator ends the process on a value it has no name for)
+                got = {"error": "%s: %s" % (type(ex).__name__, ex)}
+            if got != want:
+                fields = sorted(k for k in set(got) | set(want) if got.get(k) != want.get(k))
+                cls, en, _ = FAM[fam]
+                addr = opt_addr(lambda: cls.FromSeed(seed, en[name]).DeriveDefaultPath().PublicKey().ToAddress())
+                rep("the constants of a coin differ from its registry row after an option of ANOTHER configuration object was switched (or do not follow "
+                    "the switches of its own)", "%s; then %s.%s read through its configuration getter" % ("; ".join(story), fam, name),
+                    "%s; address of the default path of seed %s: %s" % ({k: got.get(k) for k in fields}, seed.hex(), addr), str({k: want.get(k) for k in fields}))
+                return False
+        return True
+
+    def opt_addr(f):
+        try:
+            return f()
+        except Exception as ex:  # noqa
+            return "(%s)" % type(ex).__name__
+
+    def flip(sw, on, story):
+        fam, name, var, conf = sw
+        Toggle(conf, var)._set(on)
+        story.append("%s.%s %s := %s" % (fam, name, var, on))
+        if on:
+            active[id(conf)] = (var, sw)
+        else:
+            active.pop(id(conf), None)
+
+    try:
+        ok = True
+        for sw in switches:                    # (1)
+            story = []
+            flip(sw, True, story)
+            ok = check(mem, story)
+            flip(sw, False, story)
+            ok = ok and check([x for x in mem if id(x[2]) in with_switch], story)
+            if not ok:
+                break
+        for _ in range((8 if tier == "quick" else 300) if ok else 0):            # (2)
+            story = []
+            for _step in range(rng.randrange(3, 8)):
+                sw = rng.choice(switches)
+                cur = active.get(id(sw[3]))
+                if cur is not None:                    # at most one option per object at a time: the one that is on goes off first
+                    flip(cur[1], False, story)
+                    if rng.random() < 0.5:
+                        flip(sw, True, story)
+                else:
+                    flip(sw, True, story)
+                if not check([x for x in mem if id(x[2]) in with_switch] + rng.sample(mem, 5), story):
+                    ok = False
+                    break
+            for var, sw in list(active.values()):
+                flip(sw, False, story)
+            if not ok or not check(mem if tier == "thorough" else [x for x in mem if id(x[2]) in with_switch], story):
+                break
+    finally:
+        for _, _, var, conf in switches:
+            Toggle(conf, var)._set(False)
+    return done[0]
+
+
+def _concurrent_addresses(rng, tier, rep, seed, seed32):
+    """'an address is produced, the format's decoder with the coin's own parameters accepts that address and returns the payload determined
+    by the public key' — also when several threads do so at once, each for its own key: every thread must obtain, every time, the address
+    and the payload that the same calls give single-threaded (encoders and decoders are stateless functions of their arguments; helper
+    objects they share must not carry a computation across calls). One member per address format (thorough: every member), one Substrate
+    and one Monero coin; per thread: ToAddress() of its own key object, of a fresh object re-imported from the extended public key, and
+    DecodeAddr of its own address."""
+    import sys, threading, time
+    from gen.gen_coins import rows
+    from harness.props.addr_common import fmt_table
+    from bip_utils import Bip44Changes
+    T = fmt_table()
+    nthreads = 4
+    dur = 0.06 if tier == "quick" else 0.25
+    done = 0
+
+    def race(name, jobs):
+        """jobs: one list of (what, thunk) per thread; expected values are what the thunks return now, single-threaded"""
+        want = [[f() for _, f in job] for job in jobs]
+        errs = []
+        start = threading.Barrier(len(jobs))
+
+        def worker(idx):
+            start.wait()
+            deadline = time.time() + dur
+            for rnd in range(100000):
+                for j, (what, f) in enumerate(jobs[idx]):
+                    try:
+                        got = f()
+                    except Exception as ex:  # noqa  (the same call succeeded single-threaded)
+                        got = "raised %s: %s" % (type(ex).__name__, str(ex)[:80])
+                    if got != want[idx][j]:
+                        errs.append((idx, rnd, what, got, want[idx][j]))
+                        return
+                if errs or (rnd >= 12 and time.time() > deadline):
+                    return
+        old = sys.getswitchinterval()
+        sys.setswitchinterval(1e-6)
+        try:
+            ths = [threading.Thread(target=worker, args=(i,)) for i in range(len(jobs))]
+            for t in ths:
+                t.start()
+            for t in ths:
+                t.join()
+        finally:
+            sys.setswitchinterval(old)
+        if errs:
+            idx, rnd, what, got, w = errs[0]
+            show = lambda v: v.hex() if isinstance(v, bytes) else str(v)
+            rep("a call returns something else than single-threaded when other threads produce and decode addresses of other keys of the same coin",
+                "%s: %s, round %d of thread %d of %d" % (name, what, rnd, idx, len(jobs)), show(got), show(w))
+        return not errs
+
+    allrows = [r for r in rows() if r["addrFmt"] in T and r["addrFmt"] not in ("xmr", "xmrint", "adashelley")]
+    by_fmt = {}
+    for r in allrows:
+        by_fmt.setdefault(r["addrFmt"], []).append(r)
+    picked = allrows if tier == "thorough" else [rng.choice(by_fmt[f]) for f in sorted(by_fmt)]
+    for r in picked:
+        cls, en, getter = FAM[r["family"]]
+        coin = en[r["member"]]
+        conf = getter.GetConfig(coin)
+        name = "%s.%s%s" % (r["family"], r["member"], "/" + r["variant"] if r["variant"] else "")
+        with Toggle(conf, r["variant"]):
+            chg = cls.FromSeed(seed, coin).Purpose().Coin().Account(rng.randrange(3)).Change(Bip44Changes.CHAIN_EXT)
+            i0 = rng.randrange(1000)
+            _, enc, dec, _ = T[r["addrFmt"]]
+            kw = {k: v for k, v in conf.AddrParams().items() if k not in ("pub_key_mode", "trim_zeroes")}
+            jobs = []
+            for j in range(nthreads):
+                node = chg.AddressIndex(i0 + j)
+                k = node.PublicKey()
+                xpub = k.ToExtended()
+                addr = k.ToAddress()
+                job = [("ToAddress() of key %s" % k.RawCompressed().ToHex(), k.ToAddress),
+                       ("%s.DecodeAddr(%s)" % (dec.__name__, addr), lambda a=addr: dec.DecodeAddr(a, **kw))]
+                job.append(("FromExtendedKey(%s).PublicKey().ToAddress()" % xpub, lambda x=xpub: cls.FromExtendedKey(x, coin).PublicKey().ToAddress()))
+                jobs.append(job)
+            try:
+                for job in jobs:
+                    for _, f in job:
+                        f()
+            except Exception:  # noqa  a call that fails single-threaded is the business of the end-to-end loop above
+                continue
+            done += 1
+            if not race(name, jobs):
+                break
+    from bip_utils import Substrate, SubstrateCoins, SubstrateSr25519AddrDecoder, Monero, MoneroCoins, XmrAddrDecoder
+    from bip_utils.substrate.conf import SubstrateConfGetter
+    from bip_utils.monero.conf import MoneroConfGetter
+    for coin in (list(SubstrateCoins) if tier == "thorough" else [rng.choice(list(SubstrateCoins))]):
+        fmt = SubstrateConfGetter.GetConfig(coin).SS58Format()
+        jobs = []
+        for j in range(nthreads):
+            k = Substrate.FromSeedAndPath(seed32, "//%d/x" % j, coin).PublicKey()
+            addr = k.ToAddress()
+            jobs.append([("ToAddress() of key %s" % k.RawCompressed().ToHex(), k.ToAddress),
+                         ("SubstrateSr25519AddrDecoder.DecodeAddr(%s)" % addr, lambda a=addr: SubstrateSr25519AddrDecoder.DecodeAddr(a, ss58_format=fmt))])
+        done += 1
+        race("Substrate " + coin.name, jobs)
+    for coin in (list(MoneroCoins) if tier == "thorough" else [rng.choice(list(MoneroCoins))]):
+        nv = MoneroConfGetter.GetConfig(coin).AddrNetVersion()
+        jobs = []
+        for j in range(nthreads):
+            w = Monero.FromSeed(bytes([j]) + seed32[1:], coin)
+            addr = w.PrimaryAddress()
+            jobs.append([("PrimaryAddress() of a wallet", w.PrimaryAddress), ("Subaddress(1, %d)" % j, lambda w=w, j=j: w.Subaddress(1, j)),
+                         ("XmrAddrDecoder.DecodeAddr(%s)" % addr, lambda a=addr: XmrAddrDecoder.DecodeAddr(a, net_ver=nv))])
+        done += 1
+        race("Monero " + coin.name, jobs)
+    return done
 
 
 def _canon_params(p):
